@@ -257,7 +257,7 @@ PROPS = {
                 [("GcpVerif.Proofs.PoolRefresh", "GcpVerif.Pool." + n) for n in ["one_replacement_per_slot", "refr_run", "refresh_in_progress_noop", "swap_takes_over", "replacement_idle_reconnects", "replacement_not_ready_ignored"]] +
                 [("GcpVerif.Proofs.PoolKeys", "GcpVerif.Pool.stable_swap")] +
                 [("GcpVerif.Proofs.Tas", "GcpVerif.Tas." + n) for n in ["one_winner", "split_two_winners", "refresh_test_and_set_atomic"]] +
-                [("GcpVerif.Proofs.Ties", "GcpVerif.Ties.balancer_callbacks_hold_lock"), ("GcpVerif.Proofs.Ties", "GcpVerif.Ties.detector_decision_revalidated")] +
+                [("GcpVerif.Proofs.Ties", "GcpVerif.Ties.balancer_callbacks_hold_lock"), ("GcpVerif.Proofs.Ties", "GcpVerif.Ties.detector_decision_revalidated"), ("GcpVerif.Proofs.Ties", "GcpVerif.Ties.detector_counts_atomically")] +
                 [("GcpVerif.Proofs.PoolDetector", "GcpVerif.Pool." + n) for n in ["detector_quiet", "detector_done", "detector_done_unknown", "detector_scs", "refresh_det"]] +
                 [("GcpVerif.Proofs.PoolStages", "GcpVerif.Pool.lift_quiet")]),
     "C08": dict(pool_prop([]), theorems=pool_thms(["fallback_sticky", "fallback_new", "bound_ready_home", "lookup_preserves_binding"]) +
